@@ -30,7 +30,7 @@ def match_rows(rows, ref, tol):
 def record(b, o, radii_nm, cart, rng):
     from molgri.space.fullgrid import FullGrid, from_full_array_to_o_b_t
     rec = dict(b=b, o=o, t=str(radii_nm), cartesian=cart, nT=len(radii_nm), nO=0, nB=0, rows=[], width=0, norms6=[],
-               input6=[fixed(x) for x in sorted(radii_nm)], helpers=[], dec=dict(o=[], b=[], t6=[]), err="")
+               input7=[int(round(x * 1e7)) for x in sorted(radii_nm)], helpers=[], dec=dict(o=[], b=[], t6=[]), err="", helpersOnly=False)
     try:
         with quiet():
             fg = FullGrid(b, o, str(list(radii_nm)), position_grid_cartesian=cart)
@@ -65,6 +65,26 @@ def record(b, o, radii_nm, cart, rng):
     return rec
 
 
+def big_record(b, o, t, rng):
+    """a grid with more than 2^15 position cells and more than 2^16 rows: the index helpers on chosen indices only"""
+    from molgri.space.fullgrid import FullGrid
+    rec = dict(b=b, o=o, t=t, cartesian=False, nT=0, nO=0, nB=0, rows=[], width=7, norms6=[], input7=[], helpers=[], dec=dict(o=[], b=[], t6=[]),
+               err="", helpersOnly=True)
+    try:
+        with quiet():
+            fg = FullGrid(b, o, t)
+            rec["nB"], rec["nO"], rec["nT"] = int(fg.get_b_N()), int(fg.o_rotations.get_N()), int(fg.t_grid.get_N_trans())
+            n = rec["nB"] * rec["nO"] * rec["nT"]
+            special = [0, 1, 32767, 32768, 65535, 65536, 65537, n - 1]
+            for ix in ([i for i in special if 0 <= i < n], [rng.randrange(n) for _ in range(12)]):
+                q = fg.get_quaternion_index(np.array(ix, dtype=int))
+                p = fg.get_position_index(np.array(ix, dtype=int))
+                rec["helpers"].append(dict(idx=[int(i) for i in ix], q=[int(v) for v in q], p=[int(v) for v in p]))
+    except Exception as ex:
+        rec["err"] = type(ex).__name__
+    return rec
+
+
 def run(ctx: Ctx):
     thorough = ctx.tier == "thorough"
     rng = random.Random(ctx.seed)
@@ -89,10 +109,14 @@ def run(ctx: Ctx):
     # sizes that coincide / mirror each other (n_b = n_o*n_t; (2,10) and (10,2)), and a pure-rotation grid with one position
     plan += [("6", "3", [0.2, 0.3], False), ("2", "5", [0.2, 0.3], False), ("10", "2", [0.3], False), ("8", "1", [0.3], False),
              ("cube4D_5", "1", [0.3], False)]
+    # radii with many decimals on a direction grid with generic coordinates (the decomposition de-duplicates at 8 decimals)
+    plan += [("2", "ico_42", [float(x) for x in np.linspace(0.2, 1.5, 10)], False)]
     recs = []
     for b, o, radii, cart in plan:
         recs.append(record(b, o, radii, cart, rng))
         ctx.count(1, nontrivial_key=(b, o, str(radii), cart))
+    recs.append(big_record("cube4D_2", "ico_350", "linspace(0.5, 2, 100)", rng))
+    ctx.count(1, nontrivial_key="big")
     for i, r in enumerate(recs):
         r["tid"] = i
     rejects = ctx.validate("FullIndex_Trace", "FullIndex_Trace.cfg", recs, name="fullindex")
